@@ -171,7 +171,15 @@ def segment(toks, prefix, out, translated_lines, fnnames):
                 # the translation models every integer type as an unbounded-then-checked 64-bit value and spells casts out; the
                 # primitive type names a body mentions (annotations, casts, suffixes, turbofish) stay part of the skeleton
                 prim = [t.val for t in toks[j:k + 1] if t.kind == 'ident' and t.val in PRIM] + [t.suffix for t in toks[j:k + 1] if getattr(t, 'suffix', None) and t.suffix in PRIM]
-                body = '{… %s}' % ' '.join(prim) if prim else '{…}'
+                # attributes inside a body (`#[cfg(..)]` on a statement, a block, a match arm, …) decide what is compiled; the
+                # translator models `feature = "intrinsics"` blocks only, so every attribute of a body stays in the skeleton
+                inner = []; q = j
+                while q < k:
+                    if toks[q].kind == 'punct' and toks[q].val == '#' and toks[q + 1].val in ('[', '!'):
+                        q2 = q + 1 + (1 if toks[q + 1].val == '!' else 0)
+                        e_ = match_close(toks, q2); inner.append(text(toks[q:e_ + 1]).replace(' ', '')); q = e_ + 1
+                    else: q += 1
+                body = '{… %s}' % ' '.join(prim + inner) if (prim or inner) else '{…}'
             else: body = text(toks[j:k + 1])
             out.append(prefix + atxt + htxt + ' ' + body)
         else:
